@@ -5,6 +5,7 @@
 (* entries, no malformed reply while a request waits for exactly that reply.    *)
 EXTENDS ClientCache, Json
 CONSTANTS GIdents,   \* identifiers offered in generated messages
+          GActions,  \* message classes offered in generated messages
           GLevels,   \* callback levels offered in generated registrations
           EmitOneIn  \* 1: print every behaviour of full length; k: one in k (simulation mode)
 VARIABLE hist
@@ -25,7 +26,7 @@ Det(msg) == /\ Cardinality(RelAllowed(msg, desc, waiting)) = 1
 
 GInit == Init /\ hist = <<[act |-> "descr", desc |-> desc]>>
 GNext ==
-  \/ \E msg \in {mm \in Msgs : mm.ident \in GIdents} :
+  \/ \E msg \in {mm \in Msgs : mm.ident \in GIdents /\ mm.action \in GActions} :
         /\ Det(msg)
         /\ \E e \in (IF Handled(msg, desc) THEN AllowedEntries(msg, now) ELSE {Undef}),
               rel \in RelAllowed(msg, desc, waiting) : Recv(msg, e, rel)
@@ -55,6 +56,8 @@ GenDescs3 == {GenD1, GenD2, GenD3}
 (* identifier classes: known, shorthand with / without default accessible, custom name,   *)
 (* command, unknown parameter, unknown module                                            *)
 GIdentsQ == {<<"m1", "value">>, <<"m1", "">>, <<"m2", "">>, <<"m2", "x">>, <<"m1", "cmd">>, <<"zz", "value">>}
+GIdentsC == {<<"m1", "value">>}                      \* callback-focused generation
+GLevelsC == {NodeL, <<"m1", "">>, <<"m1", "value">>}
 GLevelsQ == {NodeL, <<"m1", "">>, <<"m1", "value">>, <<"m2", "x">>}
 GIdentsM == GIdentsQ \cup {<<"m2", "target">>, <<"m1", "target">>, <<"m2", "value">>}
 GIdentsT == Idents
